@@ -60,7 +60,12 @@ package device
 //@ ghost var concurrent bool
 //@ guarded_by Device.eventProcessMutex [C16]: noteTracker, analogNoteTracker, activeNotesCounter, lastAnalogValue, actionTracker, ccZeroed, keyTracker, octave, semitone, channel, velocity, multiNote, mapping, ccLearning
 //@ guarded_by Device.externalTrackerMutex [C16]: externalNoteTracker
+// monitor invariant of the MIDI-input tracker: at Lock the handle in d.externalNoteTracker is whatever the last critical
+// section of another goroutine left there (Panic replaces the whole map), at Unlock it has to satisfy extOK again
+//@ lockinv Device.externalTrackerMutex [C16,C17] self: extOK(self)
 //@ lockctx [C16] locked[d.eventProcessMutex] || !concurrent : (*Device).NoteOn, (*Device).NoteOff, (*Device).AnalogNoteOn, (*Device).AnalogNoteOff, (*Device).OctaveDown, (*Device).OctaveUp, (*Device).OctaveReset, (*Device).SemitoneDown, (*Device).SemitoneUp, (*Device).SemitoneReset, (*Device).MappingDown, (*Device).MappingUp, (*Device).MappingReset, (*Device).ChannelDown, (*Device).ChannelUp, (*Device).ChannelReset, (*Device).CCLearningOn, (*Device).CCLearningOff, (*Device).Multinote, (*Device).Panic, (*Device).checkDoubleActions, (*Device).invokeActionPress, (*Device).invokeActionRelease, (*Device).handleKEYEvent, (*Device).handleABSEvent
+// sync.Mutex is not re-entrant: the event thread takes externalTrackerMutex inside Panic, so nothing on the way there may hold it
+//@ lockctx [C16] !locked[d.externalTrackerMutex] : (*Device).NoteOn, (*Device).NoteOff, (*Device).AnalogNoteOn, (*Device).AnalogNoteOff, (*Device).OctaveDown, (*Device).OctaveUp, (*Device).OctaveReset, (*Device).SemitoneDown, (*Device).SemitoneUp, (*Device).SemitoneReset, (*Device).MappingDown, (*Device).MappingUp, (*Device).MappingReset, (*Device).ChannelDown, (*Device).ChannelUp, (*Device).ChannelReset, (*Device).CCLearningOn, (*Device).CCLearningOff, (*Device).Multinote, (*Device).Panic, (*Device).checkDoubleActions, (*Device).invokeActionPress, (*Device).invokeActionRelease, (*Device).handleKEYEvent, (*Device).handleABSEvent
 
 // ---- NoteOn / NoteOff
 
@@ -261,6 +266,7 @@ package device
 //@   && s1 == upd(s0, ch, emptyset("set[byte]"))
 
 //@ func (*Device).Panic
+//@   ensures [C16] locked == old(locked)
 //@   requires wf(d)
 //@   let ch := d.channel
 //@   ensures [C01,C13] panicOut(old(out), old(outLen), out, outLen, old(sounding), sounding, ch)
@@ -333,6 +339,7 @@ package device
 //@   && d.actionsRelease[config.Learning] == fnref("(*Device).CCLearningOff")
 
 //@ func (*Device).invokeActionPress
+//@   ensures [C16] locked == old(locked)
 //@   requires wf(d) && tableOK(d)
 //@   ensures [C04] d.octave == (if action == config.OctaveUp && old(d.octave) < 127 then old(d.octave) + 1 else if action == config.OctaveDown && old(d.octave) > -128 then old(d.octave) - 1 else d.octave)
 //@   ensures [C04] action != config.OctaveUp && action != config.OctaveDown ==> d.octave == old(d.octave)
@@ -373,6 +380,7 @@ package device
 //@ pred Inv(d *Device) := InvCore(d) && keysInv(d)
 
 //@ func (*Device).handleKEYEvent
+//@   ensures [C16] locked == old(locked)
 //@   requires wf(d) && tableOK(d) && ie != nil && (ie.Event.Value == 0 || ie.Event.Value == 1)
 //@   let code := ie.Event.Code
 //@   let press := ie.Event.Value == 1
@@ -457,6 +465,7 @@ package device
 //@   lav != nil && (forall m int, sub string :: 0 <= m && m < len(c.KeyMappings) && has(c.KeyMappings[m].Analog, sub) ==> has(lav, sub) && vals(lav)[sub] != nil)
 
 //@ func (*Device).handleABSEvent
+//@   ensures [C16] locked == old(locked)
 //@   requires wf(d) && tableOK(d) && ie != nil && cfgRanges(d.config) && cfgDz(d.config) && lavOK(d.config, d.lastAnalogValue) && envAbs(d, ie)
 //@   ensures lavOK(d.config, d.lastAnalogValue)
 //@   cut load(.DeadzoneAtCenter) [C05,C06] !isNaN(value) && value >= -1.0 && value <= 1.0 && (!canBeNegative ==> value >= 0.0) && (canBeNegative <==> min < 0)
@@ -527,6 +536,8 @@ package device
 //@   && (ie.Event.Type == evdev.EV_ABS ==> envAbs(d, ie))
 
 //@ func (*Device).processEvent
+//@   requires [C16] !locked[d.eventProcessMutex] && !locked[d.externalTrackerMutex]
+//@   ensures [C16] locked == old(locked)
 //@   requires wf(d) && tableOK(d) && event != nil
 //@   requires event.Event.Type == evdev.EV_KEY ==> event.Event.Value == 0 || event.Event.Value == 1 || event.Event.Value == 2
 //@   requires cfgRanges(d.config) && cfgDz(d.config) && lavOK(d.config, d.lastAnalogValue) && (event.Event.Type == evdev.EV_ABS ==> envAbs(d, event))
@@ -538,6 +549,8 @@ package device
 // C01, second sentence: when the event stream ends (at any moment: the loop invariant holds after every prefix),
 // every note still tracked is released before processing ends, so nothing is left sounding at the receiver.
 //@ func (*Device).ProcessEvents
+//@   requires [C16] !locked[d.eventProcessMutex] && !locked[d.externalTrackerMutex]
+//@   loop 1 invariant [C16] !locked[d.eventProcessMutex] && !locked[d.externalTrackerMutex]
 //@   requires wf(d) && tableOK(d) && Inv(d) && cfgRanges(d.config) && cfgDz(d.config) && lavOK(d.config, d.lastAnalogValue)
 //@   assume env envEvent(d, recv)
 //@   ensures [C01] empty(d.noteTracker) && empty(d.analogNoteTracker)
@@ -597,9 +610,11 @@ package device
 //@ pred extOK(d *Device) := d.externalNoteTracker != nil && (forall ch byte :: ch < 16 ==> has(d.externalNoteTracker, ch) && d.externalNoteTracker[ch] != nil)
 
 //@ func (*Device).handleInputEvents
+//@   requires [C16] !locked[d.externalTrackerMutex]
+//@   loop 1 invariant [C16] !locked[d.externalTrackerMutex]
 //@   requires d != nil && extOK(d) && ctx != nil && wg != nil
 //@   assume env len(recv) == 0 || len(recv) >= 3
-//@   siteassert mapupdate(map[byte]bool) [C17] len(ev) >= 3 && ev[0] & 0xF0 == 0x90 && ev[2] > 0 && k == ev[1]
-//@   siteassert mapdelete(map[byte]bool) [C17] len(ev) >= 3 && (ev[0] & 0xF0 == 0x80 || (ev[0] & 0xF0 == 0x90 && ev[2] == 0)) && k == ev[1]
+//@   siteassert mapupdate(map[byte]bool) [C17] len(ev) >= 3 && ev[0] & 0xF0 == 0x90 && ev[2] > 0 && k == ev[1] && m == d.externalNoteTracker[ev[0] & 0x0F]
+//@   siteassert mapdelete(map[byte]bool) [C17] len(ev) >= 3 && (ev[0] & 0xF0 == 0x80 || (ev[0] & 0xF0 == 0x90 && ev[2] == 0)) && k == ev[1] && m == d.externalNoteTracker[ev[0] & 0x0F]
 //@   loop 1 invariant [C17] d != nil && extOK(d)
 //@   safety [C17]
